@@ -116,7 +116,8 @@ def _(self, key):
 prop("C14", fucs=["liquer.store.PrefixStore.translate_key", "liquer.store.PrefixStore.contains", "liquer.store.PrefixStore.is_dir",
                   "liquer.store.KeyTranslatingStore.get_bytes", "liquer.store.KeyTranslatingStore.store",
                   "liquer.store.KeyTranslatingStore.remove", "liquer.store.KeyTranslatingStore.listdir",
-                  "liquer.store.KeyTranslatingStore.to_root_key", "liquer.store.MountPointStore.route_to"],
+                  "liquer.store.KeyTranslatingStore.to_root_key", "liquer.store.MountPointStore.route_to", "liquer.store.MountPointStore._leads_to_mount",
+                  "liquer.store.MountPointStore.is_dir", "liquer.store.MountPointStore.contains"],
      lemmas=["strip_unstrip", "unstrip_strip"],
      static=[("inherits", "PrefixStore", "KeyTranslatingStore", ["get_bytes", "get_metadata", "store", "store_metadata", "remove", "removedir",
                                                                   "listdir", "keys", "makedir", "to_root_key"])])
@@ -166,3 +167,42 @@ def _(self, key):
               "no-later-mount-matches")
     ensures(implies(r >= 0, result is self.routing_table[r].store), "the-last-matching-mount-wins")
     ensures(implies(r < 0, result is unopt(self.default_store)), "otherwise-the-default-store")
+
+
+# ------------------------------------------------------------------ mount points and the directories above them are directories
+@spec(params=dict(rt=RT, key=Str, i=Int), returns=Bool, reads=[("Route", "prefix")])
+def leads_to_mount(rt, key, i):
+    """one of the mounts from index i on is at the key or below it"""
+    if i < 0 or i >= len(rt):
+        return False
+    if rt[i].prefix == key or rt[i].prefix.startswith(key + "/"):
+        return True
+    return leads_to_mount(rt, key, i + 1)
+
+
+@contract("liquer.store.MountPointStore._leads_to_mount", params=dict(self=MP, key=Str), returns=Bool)
+def _(self, key):
+    invariant(0, lambda: leads_to_mount(self.routing_table, key, 0) == leads_to_mount(self.routing_table, key, _i), "none-of-the-mounts-seen-so-far")
+    ensures(result == leads_to_mount(self.routing_table, key, 0), "exactly-when-a-mount-is-at-or-below-the-key")
+
+
+@contract("liquer.store.MountPointStore.is_dir", params=dict(self=MP, key=Str), returns=Bool)
+def _(self, key):
+    n = len(self.routing_table)
+    r = route_idx(self.routing_table, key, n)
+    above = key == "" or leads_to_mount(self.routing_table, key, 0)
+    raises(KeyNotSupportedStoreException, label="the-mounted-store-refuses-the-key")
+    ensures(implies(above, result), "mount-points-and-the-directories-above-them-are-directories")
+    ensures(implies(not above and r < 0 and isnone(self.default_store), not result), "unrouted-keys-are-not-directories")
+    ensures(implies(not above and r < 0 and not isnone(self.default_store), result == isdir(unopt(self.default_store), key)), "otherwise-as-the-default-store-says")
+
+
+@contract("liquer.store.MountPointStore.contains", params=dict(self=MP, key=Str), returns=Bool)
+def _(self, key):
+    n = len(self.routing_table)
+    r = route_idx(self.routing_table, key, n)
+    above = key == "" or leads_to_mount(self.routing_table, key, 0)
+    raises(KeyNotSupportedStoreException, label="the-mounted-store-refuses-the-key")
+    ensures(implies(above, result), "mount-points-and-the-directories-above-them-are-present")
+    ensures(implies(not above and r < 0 and isnone(self.default_store), not result), "unrouted-keys-are-absent")
+    ensures(implies(not above and r < 0 and not isnone(self.default_store), result == present(unopt(self.default_store), key)), "otherwise-as-the-default-store-says")
